@@ -7,7 +7,7 @@ construction and a planted fault is a deliberate single edit.
 Soundness policy (DESIGN §4) - constructs whose meaning neither the property text nor the
 readme fixes are *not generated*:
   * non-unit-step and negative-step slices (exporter refuses them; C03 territory)
-  * no-connects on instance arrays and pairs
+  * no-connects on bundle-valued ports of instance arrays
   * port references to ports of arrays that are wired per element, and to pair ports
   * pairs of modules that have bundle-valued ports
   * the same object under two names
@@ -314,7 +314,7 @@ class Gen:
                 else:
                     x = self.gen_diff(mc, info.get("bid", DIFF))
             else:
-                x = self.gen_scalar(mc, w, 0, (iname, port), allow_pr=allow_pr and w == shape, allow_nc=(kind in ("inst", "pair")), todo=todo)
+                x = self.gen_scalar(mc, w, 0, (iname, port), allow_pr=allow_pr and w == shape, allow_nc=(kind in ("inst", "pair") or (kind == "arr" and w == shape)), todo=todo)
         elif kind == "inst" and self.cfg["noconn"] and (iname, port) not in mc.referenced and ch.chance(1, 8):
             # a no-connect on a bundle-valued port: the implicit bundle instance behind it is private
             mc.nmemo += 1
